@@ -1157,3 +1157,82 @@ pub fn run_seq(ctx: &Ctx) {
     }
     out.finish(&ctx.out_dir, "sigseq", &[]);
 }
+
+// =================================================================================================
+// C07 at signal level: bit phase at the start of a transmission
+
+/// Suite `sigphase`: single bursts preceded by lead-in bits at another bit phase (random bits,
+/// preamble-like bytes followed by a slip of 1..7 bits, alternating bits) and sub-symbol offsets.
+pub fn run_phase(ctx: &Ctx) {
+    let mut out = Out::create(&ctx.out_dir, "sigphase");
+    let mut rng = Rng::new(ctx.seed ^ 0xC07);
+    let n = if ctx.tier_thorough { 3000 } else { 160 };
+    for i in 0..n {
+        let rate = if ctx.tier_thorough { pick_rate(&mut rng, i) } else { *rng.pick(&[8000u32, 11025, 22050, 44100]) };
+        let mut lg = gen_line(&mut rng, rate);
+        lg.line.noise_rel = 0.0;
+        lg.line.baud_err = 0.0;
+        // 16 half-symbol phases: the start of the audio is shifted by k/2 symbols modulo a byte
+        let half_syms = i % 16;
+        let payload = if i % 5 == 4 { b"NNNN".to_vec() } else { gen_header_any(&mut rng).text().into_bytes() };
+        let mut a = Audio::new(lg.line.clone());
+        a.silence(0.3 + (half_syms as f64) * 0.5 / BAUD, &mut rng);
+        let kind = (i / 16) % 5;
+        let lead = match kind {
+            0 => "none".to_owned(),
+            1 => {
+                let nb = rng.range(1, 200) as usize;
+                let bits: Vec<bool> = (0..nb).map(|_| rng.chance(1, 2)).collect();
+                a.bits(&bits, &mut rng);
+                format!("random_bits{}", nb)
+            }
+            2 => {
+                // preamble-like bytes, then a slip of 1..7 bits: byte sync is acquired at the wrong phase first
+                let early = rng.range(1, 12) as usize;
+                let slip = rng.range(1, 7) as usize;
+                let mut bits = vec![];
+                for _ in 0..early {
+                    for bit in 0..8 {
+                        bits.push((0xABu8 >> bit) & 1 == 1);
+                    }
+                }
+                for _ in 0..slip {
+                    bits.push(rng.chance(1, 2));
+                }
+                a.bits(&bits, &mut rng);
+                format!("early{}_slip{}", early, slip)
+            }
+            3 => {
+                let nb = rng.range(1, 100) as usize;
+                let bits: Vec<bool> = (0..nb).map(|k| k % 2 == 0).collect();
+                a.bits(&bits, &mut rng);
+                format!("alternating{}", nb)
+            }
+            _ => {
+                // a longer than standard preamble in front (17..18 bytes in total decode; see DESIGN N6)
+                let extra = rng.range(1, 2) as usize;
+                let mut bits = vec![];
+                for _ in 0..extra {
+                    for bit in 0..8 {
+                        bits.push((0xABu8 >> bit) & 1 == 1);
+                    }
+                }
+                a.bits(&bits, &mut rng);
+                format!("extra_preamble{}", extra)
+            }
+        };
+        a.burst_continuing(16, &payload, &mut rng);
+        a.silence(1.0, &mut rng);
+        let mut r = build(Cfg::Samedec, rate);
+        let (evs, taps) = run_tapped(&mut r, &a.samples);
+        let label = format!("sigphase.rate{}.half{}.{}", rate, half_syms, lead);
+        let (op, imp) = link_op(&taps);
+        out.op(&op, &imp, true);
+        let evline = show_events(&evs);
+        out.spec(&format!("spec.sig c07 {} [{}] => {}", hex(&payload), label, evline));
+        out.spec(&format!("spec.sig c13life - [{}] => {}", label, evline));
+        out.count(&format!("lead:{}", ["none", "random_bits", "early_slip", "alternating", "extra_preamble"][kind]));
+        out.count(&format!("bursts_seen:{}", evs.iter().filter(|e| e.burst().is_some()).count()));
+    }
+    out.finish(&ctx.out_dir, "sigphase", &[]);
+}
